@@ -73,6 +73,7 @@ static const char* HOT_FUNCS[] = {
 };
 
 static void sample_sched(G& g, SimConfig& c, bool multi) {
+  c.stable_sched = 1;
   c.harness_p = g.pick({0.02, 0.1, 0.3, 0.6});
   c.spurious_p = g.pick({0.0, 0.0, 0.02, 0.15});
   c.tick_ns = g.pick<uint64_t>({0, 0, 100, 10000});
@@ -1536,6 +1537,7 @@ bool family_generate(const std::string& family, uint64_t seed, const std::string
     G g(out, mix64(seed, 0xFA51 + (uint64_t)(&f - FAMILIES)), build);
     plan_base(g, out, f.prop, f.name, seed, f.opt_level, f.multi);
     f.fn(g, out);
+    for (auto& pr : out.progs) for (size_t i = 0; i < pr.ops.size(); i++) pr.ops[i].uid = (int)i;
     return true;
   }
   return false;
